@@ -315,6 +315,8 @@ def rand_cfg(rng, nclients=None, nservers=None, rewrites=True, ttl=True, plain_t
             sv["rc"] = rng.randrange(0, 11) if ty in (0, 3) else 0
             sv["ri"] = rng.choice([1, 2, 3, 5, 10, 60, rng.randrange(1, 61)])
         c.servers.append(sv)
+    if rng.random() < 0.2:      # a server and a client sharing one secret (say "radsec" on two TLS legs)
+        rng.choice(c.servers)["secret"] = rng.choice(c.clients)["secret"]
     snames = [s["name"] for s in c.servers]
     realm_names = [b"example.org", b"a.b", b"sub.example.org", b"x-y.z", b"/^.*@rx[0-9]+\\.net$/", b"/@up/"]
     rng.shuffle(realm_names)
